@@ -178,6 +178,7 @@ var chainCfgs = map[string]ChainCfg{
 	"A": {Sets: [][]string{{"a", "b", "c"}, {"b", "c", "d"}, {"d", "a"}}, GenesisSigner: "c", G0: 200},
 	"B": {Sets: [][]string{{"a", "b", "c", "d"}, {"a", "b", "c", "d", "e"}, {"e"}}, GenesisSigner: "c", G0: 200},
 	"F": {Sets: [][]string{{"a", "b", "c"}, {"a", "b", "c"}}, GenesisSigner: "c", G0: 200},
+	"G": {Sets: [][]string{{"a", "b", "c", "d", "e"}, {"a", "b"}, {"a", "b", "c", "d"}}, GenesisSigner: "a", G0: 200},
 	"P": {Sets: [][]string{{"a", "b", "c"}, {"a", "b", "c"}, {"a", "b", "d"}}, GenesisSigner: "b", G0: 200},
 	"C": {Sets: [][]string{{"a", "b", "c"}, {"a", "b", "c"}, {"a", "b", "d"}}, GenesisSigner: "c", G0: 200, Epoch: 4},
 	"D": {Sets: [][]string{{"a", "b", "c", "d", "e"}, {"a", "b", "c", "d", "e"}}, GenesisSigner: "c", G0: 200, Epoch: 4},
